@@ -62,6 +62,9 @@ pub fn rt_debug_assert(b: bool)
 /// assert!(c): may panic; afterwards c holds (R6)
 #[verifier::external_body]
 pub fn rt_assert(b: bool) ensures b { assert!(b) }
+/// `size_of::<X>()` of a type the model does not name: any value rustc can produce
+#[verifier::external_body]
+pub fn SIZE_OF_OTHER() -> (r: usize) ensures r <= isize::MAX as usize { unimplemented!() }
 /// Option::expect(msg): panics on None; afterwards the value is there (R6)
 #[verifier::external_body]
 pub fn opt_expect<T>(o: Option<T>) -> (r: T) ensures o == Some(r) { o.unwrap() }
